@@ -126,6 +126,66 @@ Theorem C12_fcc_best_float : forall (xs ys : list (T FloatNum)) (labels knees : 
 Proof. exact fcc_best_float. Qed.
 Print Assumptions C12_fcc_best_float.
 
+(* ---- the ranking score DERIVED from its stated definition (round 2): `smooth_score r2 ys m` = fit quality x relative
+   height, with peak = max height of the cluster's knees, weights |peak - y_k| normalised by their sum when non-zero,
+   fit = r2 of the left / right slice (linear: their mean); the only oracle is r2 = lf.r2 of a slice (np.corrcoef).
+   The theorems above are generic in `score`; instantiated, the shape hypothesis disappears. *)
+Theorem C12_fc_smooth_one_per_cluster :
+  forall (N : Num) (r2 : nat -> nat -> T N) (ys : list (T N)) (sorter : list (T N) -> list nat) (hull : list nat)
+         (sdist : nat -> nat -> T N) (xs : list (T N)),
+  (forall l, Permutation (sorter l) (seq 0 (length l))) ->
+  forall (m : fmode) (labels knees : list nat),
+  labels_ok labels knees = true -> strictly_increasing knees = true -> 2 <= length knees -> is_hull m = false ->
+  exists res, filter_clusters sorter (smooth_score r2 ys m) hull sdist xs m labels knees = Some res /\
+              one_per_cluster_b labels knees res = true.
+Proof. exact @fc_smooth_one_per_cluster. Qed.
+Print Assumptions C12_fc_smooth_one_per_cluster.
+
+Theorem C12_fc_smooth_best :
+  forall (N : Num) (r2 : nat -> nat -> T N) (ys : list (T N)) (sorter : list (T N) -> list nat) (hull : list nat)
+         (sdist : nat -> nat -> T N) (xs : list (T N)),
+  (forall l, Permutation (sorter l) (seq 0 (length l))) ->
+  forall (m : fmode) (labels knees : list nat),
+  labels_ok labels knees = true -> strictly_increasing knees = true -> 2 <= length knees ->
+  TotalPreorderOn (@notnan N) -> (forall l, Forall notnan l -> adj_sorted l (sorter l)) -> is_hull m = false ->
+  exists res, filter_clusters sorter (smooth_score r2 ys m) hull sdist xs m labels knees = Some res /\
+              best_b true (smooth_score r2 ys m) labels knees res = true.
+Proof. exact @fc_smooth_best. Qed.
+Print Assumptions C12_fc_smooth_best.
+
+(* hull mode, Tier O: the kept member of every ranked multi-member cluster attains the maximum of the similarity the code
+   sorts (max error - error; error = sums of shortest distances x normalised lengths, computed in the model) *)
+Theorem C12_fc_hull_best :
+  forall (N : Num) (sorter : list (T N) -> list nat) (hull : list nat) (sdist : nat -> nat -> T N) (xs : list (T N)),
+  (forall l, Permutation (sorter l) (seq 0 (length l))) ->
+  forall (labels knees : list nat),
+  labels_ok labels knees = true -> strictly_increasing knees = true -> 2 <= length knees ->
+  forall (score : list nat -> list (T N)),
+  TotalPreorderOn (@notnan N) -> (forall l, Forall notnan l -> adj_sorted l (sorter l)) ->
+  exists res, filter_clusters sorter score hull sdist xs MHull labels knees = Some res /\
+              best_b true (hull_score hull sdist xs) labels knees res = true.
+Proof. exact @fc_hull_best. Qed.
+Print Assumptions C12_fc_hull_best.
+
+(* closed binary64 instances: these are the model and the predicates the correspondence run evaluates *)
+Theorem C12_fc_smooth_best_float :
+  forall (r2 : nat -> nat -> T FloatNum) (ys : list (T FloatNum)) (hull : list nat) (sdist : nat -> nat -> T FloatNum)
+         (xs : list (T FloatNum)) (m : fmode) (labels knees : list nat),
+  labels_ok labels knees = true -> strictly_increasing knees = true -> 2 <= length knees -> is_hull m = false ->
+  exists res, filter_clusters (@argsort_stable FloatNum) (smooth_score r2 ys m) hull sdist xs m labels knees = Some res /\
+              one_per_cluster_b labels knees res = true /\ best_b true (smooth_score r2 ys m) labels knees res = true.
+Proof. exact fc_smooth_best_float. Qed.
+Print Assumptions C12_fc_smooth_best_float.
+
+Theorem C12_fc_hull_best_float :
+  forall (score : list nat -> list (T FloatNum)) (hull : list nat) (sdist : nat -> nat -> T FloatNum)
+         (xs : list (T FloatNum)) (labels knees : list nat),
+  labels_ok labels knees = true -> strictly_increasing knees = true -> 2 <= length knees ->
+  exists res, filter_clusters (@argsort_stable FloatNum) score hull sdist xs MHull labels knees = Some res /\
+              hull_ok_b hull labels knees res = true /\ best_b true (hull_score hull sdist xs) labels knees res = true.
+Proof. exact fc_hull_best_float. Qed.
+Print Assumptions C12_fc_hull_best_float.
+
 (* non-vacuity: 8 points, knees 1,2,3 | 5,6 in two clusters, evaluated on binary64 *)
 Definition ex_xs : list (T FloatNum) := [0; 1; 2; 3; 4; 5; 6; 7]%float.
 Definition ex_ys : list (T FloatNum) := [9; 6; 4; 3; 2.5; 2; 1.75; 1.5]%float.
@@ -143,4 +203,15 @@ Example C12_example :
   hull_ok_b [0; 3; 7] [0; 0; 0; 1; 1] [1; 2; 3; 5; 6] [3] = true /\
   hull_ok_b [0; 3; 7] [0; 0; 0; 1; 1] [1; 2; 3; 5; 6] [3; 5] = false /\
   filter_clusters_corners ex_xs ex_ys [0; 0; 0; 1; 1] [1; 2; 3; 5; 6] = Some [1; 5].
+Proof. vm_compute. repeat split; reflexivity. Qed.
+
+(* derived score on a cluster whose peak is NOT its first knee (y = 6, 8, 3 at knees 1, 2, 3; all fits 1):
+   weights |8-6|, 0, |8-3| over 7 — the third knee wins; with peak = y[first knee] the second would *)
+Definition ex_ys2 : list (T FloatNum) := [9; 6; 8; 3; 2.5; 2; 1.75; 1.5]%float.
+Definition ex_r2 : nat -> nat -> T FloatNum := fun _ _ => 1%float.
+Example C12_example_derived :
+  smooth_score ex_r2 ex_ys2 MLeft [1; 2; 3] = [0x1.2492492492492p-2; 0; 0x1.6db6db6db6db7p-1]%float /\
+  filter_clusters (@argsort_stable FloatNum) (smooth_score ex_r2 ex_ys2 MLeft) [] (fun _ _ => 1%float) ex_xs
+    MLeft [0; 0; 0; 1; 1] [1; 2; 3; 5; 6] = Some [3; 6] /\
+  best_b true (smooth_score ex_r2 ex_ys2 MLeft) [0; 0; 0; 1; 1] [1; 2; 3; 5; 6] [2; 6] = false.
 Proof. vm_compute. repeat split; reflexivity. Qed.
